@@ -31,6 +31,7 @@
 #include <xercesc/internal/XMLScannerResolver.hpp>
 #include <xercesc/internal/ElemStack.hpp>
 #include <xercesc/util/XMLUniDefs.hpp>
+#include <xercesc/util/XMLChar.hpp>
 #include <xercesc/framework/XMLNotationDecl.hpp>
 #include <xercesc/framework/XMLValidator.hpp>
 #include <xercesc/framework/psvi/PSVIElement.hpp>
@@ -1628,7 +1629,41 @@ void AbstractDOMParser::entityDecl
         if (id !=0) {
             fInternalSubset.append(chSpace);
             fInternalSubset.append(chDoubleQuote);
-            fInternalSubset.append(id);
+
+            //
+            //  What we have is the literal with its character references
+            //  expanded, so it may hold what an EntityValue cannot hold as
+            //  such: the quote we use, '%', and '&' other than at the start
+            //  of a general entity reference (those are not expanded). Turn
+            //  these characters into references again.
+            //
+            const bool isXML11 = (fScanner->getXMLVersion() == XMLReader::XMLV1_1);
+            for (; *id; id++)
+            {
+                bool asCharRef = (*id == chDoubleQuote || *id == chPercent);
+                if (*id == chAmpersand)
+                {
+                    const int nameLen = XMLString::indexOf(id + 1, chSemiColon);
+                    asCharRef = (nameLen <= 0)
+                             || !(isXML11 ? XMLChar1_1::isValidName(id + 1, nameLen)
+                                          : XMLChar1_0::isValidName(id + 1, nameLen));
+                }
+
+                if (asCharRef)
+                {
+                    XMLCh digits[8];
+                    XMLString::binToText((unsigned int)*id, digits, 7, 10, fMemoryManager);
+                    fInternalSubset.append(chAmpersand);
+                    fInternalSubset.append(chPound);
+                    fInternalSubset.append(digits);
+                    fInternalSubset.append(chSemiColon);
+                }
+                else
+                {
+                    fInternalSubset.append(*id);
+                }
+            }
+
             fInternalSubset.append(chDoubleQuote);
         }
 
